@@ -169,7 +169,9 @@ impl Report {
         let known = load_known();
         let mut real: Vec<&Violation> = vec![];
         let mut known_hits: BTreeMap<usize, (&Violation, u64)> = BTreeMap::new();
-        for v in &g.violations {
+        let mut sorted: Vec<&Violation> = g.violations.iter().collect();
+        sorted.sort_by_key(|v| v.case.to_string().len());
+        for v in sorted {
             match known.iter().position(|k| k.matches(v)) {
                 Some(i) => {
                     known_hits.entry(i).or_insert((v, 0)).1 += 1;
@@ -276,6 +278,75 @@ impl Report {
         println!("VIOLATION property={} replay={}", self.property, rp);
         println!("  what=no-progress the code under test made no progress for {} s in work item {} ({})", secs, item, what_item);
         std::process::exit(1);
+    }
+}
+
+impl Report {
+    /// Everything collected so far as one JSON document (used by child
+    /// processes to hand their findings to the parent).
+    pub fn export(&self) -> J {
+        let g = self.inner.lock().unwrap();
+        J::obj()
+            .set(
+                "violations",
+                J::Arr(
+                    g.violations
+                        .iter()
+                        .map(|v| {
+                            J::obj()
+                                .set("property", J::s(v.property.clone()))
+                                .set("what", J::s(v.what.clone()))
+                                .set("detail", J::s(v.detail.clone()))
+                                .set("tags", J::Obj(v.tags.iter().map(|(k, x)| (k.clone(), J::s(x.clone()))).collect()))
+                                .set("case", v.case.clone())
+                        })
+                        .collect(),
+                ),
+            )
+            .set("nviol", J::i(g.nviol as i64))
+            .set("counters", J::Obj(g.counters.iter().map(|(k, v)| (k.clone(), J::i(*v as i64))).collect()))
+            .set("samples", J::Arr(g.samples.clone()))
+            .set("machinery", J::Arr(g.machinery.iter().map(|m| J::s(m.clone())).collect()))
+    }
+    pub fn import(&self, j: &J) {
+        let mut g = self.inner.lock().unwrap();
+        if let Some(vs) = j.get("violations").and_then(|v| v.as_arr()) {
+            for v in vs {
+                let tags = match v.get("tags") {
+                    Some(J::Obj(o)) => o.iter().map(|(k, x)| (k.clone(), x.as_str().unwrap_or("").to_string())).collect(),
+                    _ => vec![],
+                };
+                if g.violations.len() < 200 {
+                    g.violations.push(Violation {
+                        property: v.str_of("property"),
+                        what: v.str_of("what"),
+                        case: v.get("case").cloned().unwrap_or(J::Null),
+                        detail: v.str_of("detail"),
+                        tags,
+                    });
+                }
+            }
+        }
+        g.nviol += j.usize_of("nviol") as u64;
+        if let Some(J::Obj(o)) = j.get("counters") {
+            for (k, v) in o {
+                *g.counters.entry(k.clone()).or_insert(0) += v.as_i64().unwrap_or(0) as u64;
+            }
+        }
+        if let Some(a) = j.get("samples").and_then(|v| v.as_arr()) {
+            for x in a {
+                if g.samples.len() < 8 {
+                    g.samples.push(x.clone());
+                }
+            }
+        }
+        if let Some(a) = j.get("machinery").and_then(|v| v.as_arr()) {
+            for x in a {
+                if g.machinery.len() < 20 {
+                    g.machinery.push(x.as_str().unwrap_or("").to_string());
+                }
+            }
+        }
     }
 }
 
